@@ -155,10 +155,15 @@ Definition entry_ok (k : cls) (n : name) (e : entry) : Prop :=
   | EBeh _ => True
   end.
 
+(* the Python bases are the declared supertypes (EObject aside), in some order *)
+Definition bases_ok (bases supers : list Z) : Prop :=
+  (forall b, In b bases -> b = 0 \/ In b supers) /\
+  (forall s, In s supers -> s <> 0 -> In s bases).
+
 Record cls_ok (k : cls) : Prop := {
   ok_keys : NoDup (map fst (c_ns k));
   ok_entries : forall n e, ns_get n (c_ns k) = Some e -> entry_ok k n e;
-  ok_bases : forall b, In b (c_bases k) -> b = 0 \/ In b (c_supers k)
+  ok_bases : bases_ok (c_bases k) (c_supers k)
 }.
 
 Definition Inv (st : state) : Prop := Forall cls_ok (classes st).
@@ -199,12 +204,30 @@ Proof.
     destruct Hy as [Hy|Hy]; [left; assumption|right; eapply IH; eauto].
 Qed.
 
-Lemma compute_supertypes_In supers b : In b (compute_supertypes supers) -> b = 0 \/ In b supers.
+Lemma remove_first_keeps (x : Z) l l' y : remove_first Z.eqb x l = Some l' -> In y l -> y <> x -> In y l'.
 Proof.
-  unfold compute_supertypes. destruct supers as [|s r]; [simpl; intuition|].
-  destruct (Nat.ltb 1 (length (s :: r)) && zmem 0 (s :: r)); [|right; assumption].
-  destruct (remove_first Z.eqb 0 (s :: r)) as [l|] eqn:E; [|right; assumption].
-  intros H. right. eapply remove_first_In; eauto.
+  revert l'. induction l as [|a l IH]; simpl; intros l' H Hy N; [discriminate|].
+  destruct (Z.eqb_spec a x).
+  - inversion H; subst. destruct Hy as [Hy|Hy]; [congruence|assumption].
+  - destruct (remove_first Z.eqb x l) as [r|]; [|discriminate]. inversion H; subst.
+    destruct Hy as [Hy|Hy]; [left; assumption|right; eapply IH; eauto].
+Qed.
+
+Lemma compute_supertypes_ok supers : bases_ok (compute_supertypes supers) supers.
+Proof.
+  unfold compute_supertypes, bases_ok. destruct supers as [|s r]; [simpl; intuition|].
+  destruct (Nat.ltb 1 (length (s :: r)) && zmem 0 (s :: r)); [|split; [right; assumption|intros; assumption]].
+  destruct (remove_first Z.eqb 0 (s :: r)) as [l|] eqn:E; [|split; [right; assumption|intros; assumption]].
+  split.
+  - intros b H. right. eapply remove_first_In; eauto.
+  - intros x H N. eapply remove_first_keeps; eauto.
+Qed.
+
+Lemma bases_ok_sorted key bs supers : bases_ok bs supers -> bases_ok (sort_desc key bs) supers.
+Proof.
+  intros [H1 H2]. split.
+  - intros b Hb. apply sort_desc_In in Hb. auto.
+  - intros x Hx N. apply sort_desc_In. auto.
 Qed.
 
 Lemma assign_eq st c bs st' : assign st c bs = Some st' -> st' = set_bases st c bs.
@@ -212,87 +235,1017 @@ Proof.
   unfold assign. destruct (forallb _ _); [|discriminate]. intros H. inversion H. reflexivity.
 Qed.
 
-Lemma cls_ok_bases k bs :
-  cls_ok k -> (forall b, In b bs -> b = 0 \/ In b (c_supers k)) ->
-  cls_ok (mkCls (c_feats k) (c_ops k) (c_supers k) (c_ns k) bs).
-Proof. intros [K1 K2 K3] H. constructor; simpl; assumption. Qed.
-
-Lemma Inv_set_bases st c bs :
-  Inv st -> (forall k, getc st c = Some k -> forall b, In b bs -> b = 0 \/ In b (c_supers k)) ->
-  Inv (set_bases st c bs).
-Proof.
-  intros H B. unfold set_bases. destruct (getc st c) as [k|] eqn:G; [|assumption].
-  apply Inv_setc; [assumption|]. apply cls_ok_bases; [eapply Inv_getc; eauto|]. apply B. reflexivity.
-Qed.
-
 Lemma Inv_set_flag st : Inv st -> Inv (set_flag st).
 Proof. intros H. exact H. Qed.
 
-Lemma getc_set_flag st c : getc (set_flag st) c = getc st c.
-Proof. reflexivity. Qed.
+Lemma set_at_twice {A} (l : list A) : forall n (a b : A), set_at n a (set_at n b l) = set_at n a l.
+Proof. induction l as [|y l IH]; intros [|n] a b; simpl; try reflexivity. f_equal. apply IH. Qed.
 
-Lemma Inv_update_supertypes st c st' r :
-  Inv st -> update_supertypes st c = (st', r) -> Inv st'.
+Lemma setc_twice st c k1 k2 : setc (setc st c k1) c k2 = setc st c k2.
+Proof. unfold setc. simpl. rewrite set_at_twice. reflexivity. Qed.
+
+(* the supertypes change and the bases are recomputed at once: when
+   update_supertypes succeeds the bases condition holds again, whatever the
+   bases were before *)
+Lemma Inv_supers_then_update st c ss st' :
+  Inv st -> update_supertypes (set_supers st c ss) c = (st', None) -> Inv st'.
 Proof.
-  intros H U. unfold update_supertypes in U.
-  assert (B1 : forall k, getc st c = Some k -> forall b,
-               In b (compute_supertypes (supers_fn st c)) -> b = 0 \/ In b (c_supers k)).
-  { intros k G b Hb. unfold supers_fn in Hb. rewrite G in Hb. apply compute_supertypes_In. assumption. }
-  assert (B2 : forall key k, getc st c = Some k -> forall b,
-               In b (sort_desc key (compute_supertypes (supers_fn st c))) -> b = 0 \/ In b (c_supers k)).
-  { intros key k G b Hb. apply sort_desc_In in Hb. eapply B1; eauto. }
-  destruct (assign st c (compute_supertypes (supers_fn st c))) as [s1|] eqn:A1.
-  - inversion U; subst. apply assign_eq in A1. subst. apply Inv_set_bases; assumption.
-  - match type of U with context [assign st c ?bs2] => destruct (assign st c bs2) as [s2|] eqn:A2 end.
-    + inversion U; subst. apply assign_eq in A2. subst. apply Inv_set_bases; [assumption|]. apply B2.
-    + match type of U with context [assign (set_flag st) c ?bs2] =>
-        destruct (assign (set_flag st) c bs2) as [s3|] eqn:A3 end.
-      * inversion U; subst. apply assign_eq in A3. subst.
-        apply Inv_set_bases; [apply Inv_set_flag; assumption|]. intros k G. apply (B2 _ k). exact G.
-      * inversion U; subst. apply Inv_set_flag. assumption.
-Qed.
-
-Lemma cls_ok_supers k ss :
-  cls_ok k -> (forall b, In b (c_bases k) -> b = 0 \/ In b ss) ->
-  cls_ok (mkCls (c_feats k) (c_ops k) ss (c_ns k) (c_bases k)).
-Proof. intros [K1 K2 K3] H. constructor; simpl; assumption. Qed.
-
-(* the supertypes change and the bases are recomputed at once: the bases
-   condition is re-established by update_supertypes whatever the old bases *)
-Lemma Inv_supers_then_update st c ss st' r :
-  Inv st -> update_supertypes (set_supers st c ss) c = (st', r) ->
-  r = None -> Inv st'.
-Proof.
-  intros H U R. subst r. unfold set_supers in U.
-  destruct (getc st c) as [k|] eqn:G; [|eapply Inv_update_supertypes; eauto].
+  intros H U. unfold set_supers in U.
+  destruct (getc st c) as [k|] eqn:G.
+  2:{ unfold update_supertypes in U.
+      assert (N : forall s bs, getc s c = None -> set_bases s c bs = s) by (intros s bs E; unfold set_bases; rewrite E; reflexivity).
+      repeat match type of U with
+             | context [assign ?a ?b ?d] => let A := fresh "A" in destruct (assign a b d) eqn:A;
+                 [apply assign_eq in A; rewrite N in A by exact G; subst|]
+             end; inversion U; subst; assumption. }
   pose proof (Inv_getc _ _ _ H G) as K.
   set (k1 := mkCls (c_feats k) (c_ops k) ss (c_ns k) (c_bases k)) in *.
   set (st1 := setc st c k1) in *.
   assert (G1 : getc st1 c = Some k1) by (eapply getc_setc_same; eauto).
-  (* weaken: every class except c is fine; c gets fresh bases *)
-  assert (W : forall bs, (forall b, In b bs -> b = 0 \/ In b ss) -> forall fl,
+  assert (W : forall bs, bases_ok bs ss -> forall fl,
               Inv (set_bases (mkState (classes st1) (insts st1) fl) c bs)).
   { intros bs Hb fl. unfold set_bases.
     change (getc (mkState (classes st1) (insts st1) fl) c) with (getc st1 c). rewrite G1.
     unfold setc. simpl. unfold Inv. simpl.
     unfold st1, setc. simpl.
-    assert (E : forall (l : list cls) n (a b : cls), set_at n a (set_at n b l) = set_at n a l).
-    { induction l as [|y l IH]; intros [|n] a b; simpl; try reflexivity. f_equal. apply IH. }
-    rewrite E. apply Forall_set_at; [exact H|].
+    rewrite set_at_twice. apply Forall_set_at; [exact H|].
     destruct K as [K1 K2 K3]. constructor; simpl; assumption. }
   unfold update_supertypes in U.
   assert (S1 : supers_fn st1 c = ss) by (unfold supers_fn; rewrite G1; reflexivity).
   rewrite S1 in U.
-  assert (C1 : forall b, In b (compute_supertypes ss) -> b = 0 \/ In b ss) by (apply compute_supertypes_In).
-  assert (C2 : forall key b, In b (sort_desc key (compute_supertypes ss)) -> b = 0 \/ In b ss).
-  { intros key b Hb. apply sort_desc_In in Hb. auto. }
+  pose proof (compute_supertypes_ok ss) as C1.
   destruct (assign st1 c (compute_supertypes ss)) as [s1|] eqn:A1.
   - injection U as U1. rewrite <- U1. apply assign_eq in A1. rewrite A1.
     exact (W _ C1 (flag st1)).
   - match type of U with context [assign st1 c ?bs2] => destruct (assign st1 c bs2) as [s2|] eqn:A2 end.
     + injection U as U1. rewrite <- U1. apply assign_eq in A2. rewrite A2.
-      exact (W _ (C2 _) (flag st1)).
+      exact (W _ (bases_ok_sorted _ _ _ C1) (flag st1)).
     + match type of U with context [assign (set_flag st1) c ?bs2] =>
         destruct (assign (set_flag st1) c bs2) as [s3|] eqn:A3 end; [|discriminate].
-      injection U as U1. rewrite <- U1. apply assign_eq in A3. rewrite A3. exact (W _ (C2 _) true).
+      injection U as U1. rewrite <- U1. apply assign_eq in A3. rewrite A3.
+      exact (W _ (bases_ok_sorted _ _ _ C1) true).
+Qed.
+
+Lemma update_supertypes_err st c st' e :
+  update_supertypes st c = (st', Some e) -> e = XType.
+Proof.
+  unfold update_supertypes.
+  repeat match goal with |- context [assign ?a ?b ?d] => destruct (assign a b d) end;
+    intros H; inversion H; reflexivity.
+Qed.
+
+(* ---------- every edit keeps the invariant ---------- *)
+
+Lemma Inv_classes_eq st st' : classes st' = classes st -> Inv st -> Inv st'.
+Proof. unfold Inv. intros ->. tauto. Qed.
+
+Lemma classes_set_slot st i n s : classes (set_slot st i n s) = classes st.
+Proof. unfold set_slot. destruct (geti st i); reflexivity. Qed.
+
+Lemma classes_getattr st i n : classes (fst (getattr_m st i n)) = classes st.
+Proof.
+  unfold getattr_m. destruct (geti st i) as [x|]; [|reflexivity].
+  destruct (class_lookup st (i_cls x) n) as [[f|s|b]|]; destruct (ns_get n (i_dict x)) as [[? ?|? ?|?]|];
+    simpl; try reflexivity; apply classes_set_slot.
+Qed.
+
+Lemma classes_setattr st i n v : classes (fst (setattr_m st i n v)) = classes st.
+Proof.
+  unfold setattr_m. destruct (geti st i) as [x|]; [|reflexivity].
+  destruct (class_lookup st (i_cls x) n) as [[f|s|b]|]; simpl; try apply classes_set_slot.
+  destruct (ns_get n (i_dict x)) as [sl|]; simpl.
+  - destruct sl as [fs v0|fs vs|v0]; simpl; try reflexivity.
+    destruct (conforms st (f_type fs) v); simpl; [apply classes_set_slot|reflexivity].
+  - destruct (default_slot f) as [fs v0|fs vs|v0]; simpl; try apply classes_set_slot.
+    destruct (conforms _ (f_type fs) v); simpl; repeat rewrite classes_set_slot; reflexivity.
+Qed.
+
+Lemma classes_append st i n v : classes (fst (append_m st i n v)) = classes st.
+Proof.
+  unfold append_m. pose proof (classes_getattr st i n) as G.
+  destruct (getattr_m st i n) as [st1 g]. simpl in G.
+  destruct (geti st1 i) as [x|]; [|assumption].
+  destruct (ns_get n (i_dict x)) as [[? ?|f vs|?]|]; try assumption.
+  destruct (conforms st1 (f_type f) v && negb ((v =? -1) && (0 <? f_type f))); simpl; [|assumption].
+  rewrite classes_set_slot. assumption.
+Qed.
+
+Lemma remove_feat_keeps n fs fs' g :
+  remove_feat n fs = Some fs' -> In g fs -> f_name g <> n -> In g fs'.
+Proof.
+  revert fs'. induction fs as [|f r IH]; simpl; intros fs' H Hg N; [discriminate|].
+  destruct (name_eqb (f_name f) n) eqn:E.
+  - inversion H; subst. destruct Hg as [Hg|Hg]; [|assumption].
+    subst. apply name_eqb_eq in E. congruence.
+  - destruct (remove_feat n r) as [r'|]; [|discriminate]. inversion H; subst.
+    destruct Hg as [Hg|Hg]; [left; assumption|right; eapply IH; eauto].
+Qed.
+
+Lemma remove_oper_keeps n os os' g :
+  remove_oper n os = Some os' -> In g os -> o_name g <> n -> In g os'.
+Proof.
+  revert os'. induction os as [|f r IH]; simpl; intros os' H Hg N; [discriminate|].
+  destruct (name_eqb (o_name f) n) eqn:E.
+  - inversion H; subst. destruct Hg as [Hg|Hg]; [|assumption].
+    subst. apply name_eqb_eq in E. congruence.
+  - destruct (remove_oper n r) as [r'|]; [|discriminate]. inversion H; subst.
+    destruct Hg as [Hg|Hg]; [left; assumption|right; eapply IH; eauto].
+Qed.
+
+Lemma del_all_spec names : forall (ns ns' : list (name * entry)),
+  del_all ns names = (ns', true) -> NoDup (map fst ns) ->
+  NoDup (map fst ns') /\ (forall m, In m names -> ns_get m ns' = None) /\
+  (forall m e, ns_get m ns' = Some e -> ns_get m ns = Some e).
+Proof.
+  induction names as [|n r IH]; simpl; intros ns ns' H ND.
+  - inversion H; subst. split; [assumption|]. split; [intros m []|auto].
+  - destruct (ns_del n ns) as [ns1|] eqn:D; [|discriminate].
+    destruct (ns_del_spec _ _ _ D ND) as (D1 & D2 & D3 & D4).
+    destruct (IH _ _ H D1) as (I1 & I2 & I3). split; [assumption|]. split.
+    + intros m [Hm|Hm]; [|apply I2; assumption]. subst.
+      destruct (ns_get m ns') as [e|] eqn:E; [|reflexivity]. apply I3 in E. congruence.
+    + intros m e Hm. pose proof (I3 _ _ Hm) as H1.
+      destruct (list_eq_dec Z.eq_dec m n) as [E|N]; [subst; congruence|].
+      rewrite <- (D3 m N). assumption.
+Qed.
+
+Definition side_condition (o : op) (r : outcome) : Prop :=
+  match o with
+  | ClearFeats _ | ClearOps _ => r <> RErr XAttr     (* delattr stopped half-way *)
+  | NewClass _ | AddSuper _ _ | RemoveSuper _ _ => r <> RErr XType   (* no linearisation even with the replacement *)
+  | _ => True
+  end.
+
+Lemma h_name_to_code n ps : h_name (to_code n ps) = normalized_name n.
+Proof. reflexivity. Qed.
+
+Theorem step_preserves_Inv o st st' r :
+  Inv st -> step o st = (st', r) -> side_condition o r -> Inv st'.
+Proof.
+  intros I S SC. destruct o; simpl in S.
+  - (* NewClass *)
+    unfold new_class in S.
+    set (c := Z.of_nat (Datatypes.S (nclasses st))) in *.
+    set (st0 := mkState (classes st ++ [mkCls [] [] [] [] []]) (insts st) (flag st)).
+    assert (I0 : Inv st0).
+    { unfold Inv, st0. simpl. apply Forall_app. split; [exact I|]. constructor; [|constructor].
+      constructor; simpl; [constructor|discriminate|]. split; [intros b []|intros s []]. }
+    assert (G0 : getc st0 c = Some (mkCls [] [] [] [] [])).
+    { unfold getc, st0, c, idx. simpl classes. destruct (Z.leb_spec (Z.of_nat (Datatypes.S (nclasses st))) 0); [lia|].
+      replace (Z.to_nat (Z.of_nat (Datatypes.S (nclasses st)) - 1)) with (length (classes st)) by (unfold nclasses; lia).
+      rewrite nth_error_app2 by lia. rewrite Nat.sub_diag. reflexivity. }
+    assert (E1 : mkState (classes st ++ [mkCls [] [] (zdedup supers) [] []]) (insts st) (flag st)
+                 = set_supers st0 c (zdedup supers)).
+    { unfold set_supers. rewrite G0. unfold setc, st0.
+      cbn [classes insts flag c_feats c_ops c_ns c_bases]. f_equal.
+      assert (X : idx c = length (classes st)) by (unfold idx, c, nclasses; lia).
+      rewrite X. generalize (classes st) as l. induction l as [|y l IH]; simpl; [reflexivity|].
+      f_equal. assumption. }
+    rewrite E1 in S.
+    destruct (update_supertypes (set_supers st0 c (zdedup supers)) c) as [st2 e] eqn:U.
+    destruct e as [e|].
+    + inversion S; subst. exfalso. apply SC. rewrite (update_supertypes_err _ _ _ _ U). reflexivity.
+    + inversion S; subst. eapply Inv_supers_then_update; eauto.
+  - (* AddSuper *)
+    destruct (getc st c) as [k|] eqn:G; [|inversion S; subst; assumption].
+    match type of S with context [update_supertypes (set_supers st c ?ss) c] =>
+      destruct (update_supertypes (set_supers st c ss) c) as [st2 e] eqn:U end.
+    destruct e as [e|].
+    + inversion S; subst. exfalso. apply SC. rewrite (update_supertypes_err _ _ _ _ U). reflexivity.
+    + inversion S; subst. eapply Inv_supers_then_update; eauto.
+  - (* RemoveSuper *)
+    destruct (getc st c) as [k|] eqn:G; [|inversion S; subst; assumption].
+    destruct (remove_first Z.eqb s (c_supers k)) as [ss|] eqn:R; [|inversion S; subst; assumption].
+    destruct (update_supertypes (set_supers st c ss) c) as [st2 e] eqn:U.
+    destruct e as [e|].
+    + inversion S; subst. exfalso. apply SC. rewrite (update_supertypes_err _ _ _ _ U). reflexivity.
+    + inversion S; subst. eapply Inv_supers_then_update; eauto.
+  - (* AddFeat *)
+    destruct (getc st c) as [k|] eqn:G; [|inversion S; subst; assumption].
+    inversion S; subst. apply Inv_setc; [assumption|].
+    destruct (Inv_getc _ _ _ I G) as [K1 K2 K3]. constructor; simpl.
+    + apply ns_set_NoDup. assumption.
+    + intros n e H. destruct (list_eq_dec Z.eq_dec (f_name f) n) as [E|N].
+      * subst. rewrite ns_get_set_same in H. inversion H; subst. simpl.
+        split; [apply in_or_app; right; left; reflexivity|reflexivity].
+      * rewrite (ns_get_set_other _ _ _ _ N) in H. specialize (K2 _ _ H).
+        destruct e; simpl in *; [|assumption|assumption].
+        destruct K2. split; [apply in_or_app; left; assumption|assumption].
+    + assumption.
+  - (* RemoveFeat *)
+    destruct (getc st c) as [k|] eqn:G; [|inversion S; subst; assumption].
+    destruct (remove_feat n (c_feats k)) as [fs|] eqn:R; [|inversion S; subst; assumption].
+    destruct (Inv_getc _ _ _ I G) as [K1 K2 K3].
+    simpl in S. destruct (ns_del n (c_ns k)) as [ns'|] eqn:D; inversion S; subst; apply Inv_setc; try assumption.
+    + destruct (ns_del_spec _ _ _ D K1) as (D1 & D2 & D3 & D4). constructor; simpl; [assumption| |assumption].
+      intros m e H.
+      destruct (list_eq_dec Z.eq_dec m n) as [E|N]; [subst; congruence|].
+      rewrite (D3 m N) in H. specialize (K2 _ _ H). destruct e; simpl in *; [|assumption|assumption].
+      destruct K2 as [K2a K2b]. split; [|assumption]. eapply remove_feat_keeps; eauto. congruence.
+    + apply ns_del_None in D. constructor; simpl; [assumption| |assumption].
+      intros m e H. specialize (K2 _ _ H). destruct e; simpl in *; [|assumption|assumption].
+      destruct K2 as [K2a K2b]. split; [|assumption]. eapply remove_feat_keeps; eauto.
+      intros E. subst. congruence.
+  - (* ClearFeats *)
+    destruct (getc st c) as [k|] eqn:G; [|inversion S; subst; assumption].
+    destruct (Inv_getc _ _ _ I G) as [K1 K2 K3]. simpl in S.
+    destruct (del_all (c_ns k) (map f_name (c_feats k))) as [ns' ok] eqn:D.
+    inversion S; subst. destruct ok; [|exfalso; apply SC; reflexivity].
+    destruct (del_all_spec _ _ _ D K1) as (D1 & D2 & D3).
+    apply Inv_setc; [assumption|]. constructor; simpl; [assumption| |assumption].
+    intros m e H. pose proof (K2 _ _ (D3 _ _ H)) as K. destruct e; simpl in *; [|assumption|assumption].
+    destruct K as [Ka Kb]. subst. rewrite D2 in H; [discriminate|]. apply in_map. assumption.
+  - (* AddOp *)
+    unfold add_oper in S. destruct (getc st c) as [k|] eqn:G; [|inversion S; subst; assumption].
+    destruct (Inv_getc _ _ _ I G) as [K1 K2 K3].
+    set (k1 := with_ops (c_ops k ++ [o]) k) in *.
+    assert (OK1 : cls_ok k1).
+    { constructor; simpl; [assumption| |assumption]. intros m e H. specialize (K2 _ _ H).
+      destruct e; simpl in *; [assumption| |assumption].
+      destruct K2 as (o' & Ho & R). exists o'. split; [apply in_or_app; left; assumption|assumption]. }
+    assert (G1 : getc (setc st c k1) c = Some k1) by (eapply getc_setc_same; eauto).
+    destruct (py_def (to_code (o_name o) (o_params o))) as [[]|s] eqn:PD.
+    + inversion S; subst. apply Inv_setc; assumption.
+    + inversion S; subst. unfold upd_cls. rewrite G1.
+      apply Inv_setc; [apply Inv_setc; assumption|].
+      destruct OK1 as [L1 L2 L3]. constructor; simpl; [apply ns_set_NoDup; assumption| |assumption].
+      intros m e H.
+      destruct (list_eq_dec Z.eq_dec (normalized_name (o_name o)) m) as [E|N].
+      * subst. rewrite ns_get_set_same in H. inversion H; subst. simpl.
+        exists o. split; [apply in_or_app; right; left; reflexivity|]. split; [reflexivity|assumption].
+      * rewrite (ns_get_set_other _ _ _ _ N) in H. specialize (L2 _ _ H). destruct e; exact L2.
+  - (* RemoveOp *)
+    destruct (getc st c) as [k|] eqn:G; [|inversion S; subst; assumption].
+    destruct (remove_oper n (c_ops k)) as [os|] eqn:R; [|inversion S; subst; assumption].
+    destruct (Inv_getc _ _ _ I G) as [K1 K2 K3].
+    simpl in S. destruct (ns_del (normalized_name n) (c_ns k)) as [ns'|] eqn:D; inversion S; subst;
+      apply Inv_setc; try assumption.
+    + destruct (ns_del_spec _ _ _ D K1) as (D1 & D2 & D3 & D4). constructor; simpl; [assumption| |assumption].
+      intros m e H.
+      destruct (list_eq_dec Z.eq_dec m (normalized_name n)) as [E|N]; [subst; congruence|].
+      rewrite (D3 m N) in H. specialize (K2 _ _ H). destruct e; simpl in *; [assumption| |assumption].
+      destruct K2 as (o' & Ho & R1 & R2). exists o'. split; [|tauto].
+      eapply remove_oper_keeps; eauto. intros E. subst. congruence.
+    + apply ns_del_None in D. constructor; simpl; [assumption| |assumption].
+      intros m e H. specialize (K2 _ _ H). destruct e; simpl in *; [assumption| |assumption].
+      destruct K2 as (o' & Ho & R1 & R2). exists o'. split; [|tauto].
+      eapply remove_oper_keeps; eauto. intros E. subst. congruence.
+  - (* ClearOps *)
+    destruct (getc st c) as [k|] eqn:G; [|inversion S; subst; assumption].
+    destruct (Inv_getc _ _ _ I G) as [K1 K2 K3]. simpl in S.
+    destruct (del_all (c_ns k) (map (fun o => normalized_name (o_name o)) (c_ops k))) as [ns' ok] eqn:D.
+    inversion S; subst. destruct ok; [|exfalso; apply SC; reflexivity].
+    destruct (del_all_spec _ _ _ D K1) as (D1 & D2 & D3).
+    apply Inv_setc; [assumption|]. constructor; simpl; [assumption| |assumption].
+    intros m e H. pose proof (K2 _ _ (D3 _ _ H)) as K. destruct e; simpl in *; [assumption| |assumption].
+    destruct K as (o' & Ho & R1 & R2). subst. rewrite D2 in H; [discriminate|].
+    apply in_map_iff. exists o'. split; [reflexivity|assumption].
+  - (* Attach *)
+    destruct (getc st c) as [k|] eqn:G; [|inversion S; subst; assumption].
+    inversion S; subst. apply Inv_setc; [assumption|].
+    destruct (Inv_getc _ _ _ I G) as [K1 K2 K3]. constructor; simpl; [apply ns_set_NoDup; assumption| |assumption].
+    intros m e H. destruct (list_eq_dec Z.eq_dec n m) as [E|N].
+    + subst. rewrite ns_get_set_same in H. inversion H; subst. exact Logic.I.
+    + rewrite (ns_get_set_other _ _ _ _ N) in H. specialize (K2 _ _ H). destruct e; simpl in *; assumption.
+  - (* NewInst *)
+    destruct (getc st c); inversion S; subst; assumption.
+  - (* Get *)
+    pose proof (classes_getattr st i n) as C. destruct (getattr_m st i n) as [st1 g]. simpl in C.
+    apply (Inv_classes_eq st); [|assumption]. destruct g; inversion S; subst; assumption.
+  - (* SetA *)
+    pose proof (classes_setattr st i n v) as C. rewrite S in C. apply (Inv_classes_eq st); assumption.
+  - (* Append *)
+    pose proof (classes_append st i n v) as C. rewrite S in C. apply (Inv_classes_eq st); assumption.
+  - (* Call *)
+    pose proof (classes_getattr st i n) as C. destruct (getattr_m st i n) as [st1 g]. simpl in C.
+    apply (Inv_classes_eq st); [|assumption]. destruct g; inversion S; subst; assumption.
+  - (* Sig *)
+    pose proof (classes_getattr st i n) as C. destruct (getattr_m st i n) as [st1 g]. simpl in C.
+    apply (Inv_classes_eq st); [|assumption]. destruct g; inversion S; subst; assumption.
+Qed.
+
+(* ---------- histories ---------- *)
+
+Fixpoint sides (ops : list op) (st : state) : Prop :=
+  match ops with
+  | [] => True
+  | o :: r => side_condition o (snd (step o st)) /\ sides r (next st o)
+  end.
+
+Lemma history_Inv_from ops : forall st, Inv st -> sides ops st -> Inv (fold_left next ops st).
+Proof.
+  induction ops as [|o r IH]; intros st I Sd; simpl; [assumption|].
+  destruct Sd as [S1 S2]. apply IH; [|assumption].
+  unfold next. destruct (step o st) as [st' out] eqn:E. simpl in *.
+  eapply step_preserves_Inv; eauto.
+Qed.
+
+Theorem history_Inv ops fl :
+  sides ops (empty_state fl) -> Inv (fold_left next ops (empty_state fl)).
+Proof. apply history_Inv_from. apply Inv_empty. Qed.
+
+(* ---------- what a class lookup finds is declared ---------- *)
+
+Definition declares_feat (st : state) (d : Z) (n : name) (f : feat) : Prop :=
+  In f (feats_of st d) /\ f_name f = n.
+
+Definition declares_op (st : state) (d : Z) (n : name) (s : argspec) : Prop :=
+  exists o, In o (ops_of st d) /\ normalized_name (o_name o) = n /\
+            py_def (to_code (o_name o) (o_params o)) = inr s.
+
+(* c or a transitive supertype of c (metamodel side: eSuperTypes) *)
+Definition in_closure (st : state) (c d : Z) : Prop := reach (supers_fn st) c d.
+
+Lemma first_some_found {A B} (f : A -> option B) l y :
+  first_some f l = Some y -> exists x, In x l /\ f x = Some y.
+Proof.
+  induction l as [|a l IH]; simpl; [discriminate|].
+  destruct (f a) as [b|] eqn:E.
+  - intros H. inversion H; subst. exists a. split; [left; reflexivity|assumption].
+  - intros H. destruct (IH H) as (x & Hx & Ex). exists x. split; [right; assumption|assumption].
+Qed.
+
+Lemma first_some_None {A B} (f : A -> option B) l :
+  first_some f l = None <-> forall x, In x l -> f x = None.
+Proof.
+  induction l as [|a l IH]; simpl; [tauto|].
+  destruct (f a) as [b|] eqn:E.
+  - split; [discriminate|]. intros H. rewrite <- E. apply H. left. reflexivity.
+  - rewrite IH. split.
+    + intros H x [Hx|Hx]; [subst; assumption|apply H; assumption].
+    + intros H x Hx. apply H. right. assumption.
+Qed.
+
+Lemma bases_fn_zero st : bases_fn st 0 = [].
+Proof. reflexivity. Qed.
+
+Lemma reach_from_root g x : g 0 = [] -> reach g 0 x -> x = 0.
+Proof. intros G H. inversion H; subst; [reflexivity|]. rewrite G in H0. destruct H0. Qed.
+
+Lemma reach_bases_supers st c d :
+  Inv st -> reach (bases_fn st) c d -> d <> 0 -> reach (supers_fn st) c d.
+Proof.
+  intros I H. induction H as [c|c b x Hb Hr IH]; intros N; [constructor|].
+  unfold bases_fn in Hb. destruct (getc st c) as [k|] eqn:G; [|destruct Hb].
+  destruct (ok_bases _ (Inv_getc _ _ _ I G)) as [B1 _].
+  destruct (B1 b Hb) as [E|E].
+  - subst. apply reach_from_root in Hr; [congruence|reflexivity].
+  - eapply reach_step; [|apply IH; assumption]. unfold supers_fn. rewrite G. assumption.
+Qed.
+
+Lemma reach_supers_bases st c d :
+  Inv st -> reach (supers_fn st) c d -> d <> 0 -> reach (bases_fn st) c d.
+Proof.
+  intros I H. induction H as [c|c b x Hb Hr IH]; intros N; [constructor|].
+  unfold supers_fn in Hb. destruct (getc st c) as [k|] eqn:G; [|destruct Hb].
+  destruct (ok_bases _ (Inv_getc _ _ _ I G)) as [_ B2].
+  destruct (Z.eq_dec b 0) as [E|E].
+  - subst. unfold supers_fn in Hr. apply reach_from_root in Hr; [congruence|reflexivity].
+  - eapply reach_step; [|apply IH; assumption]. unfold bases_fn. rewrite G. apply B2; assumption.
+Qed.
+
+Lemma class_lookup_found st c n e :
+  class_lookup st c n = Some e ->
+  exists l d, mro st c = Some l /\ In d l /\ ns_get n (ns_of st d) = Some e.
+Proof.
+  unfold class_lookup. destruct (mro st c) as [l|]; [|discriminate].
+  intros H. apply first_some_found in H. destruct H as (d & Hd & E). exists l, d. tauto.
+Qed.
+
+Theorem class_lookup_sound st c n e :
+  Inv st -> flag st = false -> class_lookup st c n = Some e ->
+  exists d, in_closure st c d /\
+    match e with
+    | EFeat f => declares_feat st d n f
+    | EFun s => declares_op st d n s
+    | EBeh _ => True
+    end.
+Proof.
+  intros I F H. destruct (class_lookup_found _ _ _ _ H) as (l & d & M & Hd & E).
+  unfold mro in M. rewrite F in M.
+  apply (mro_of_closure _ _ _ _ M) in Hd.
+  unfold ns_of in E. destruct (getc st d) as [k|] eqn:G; [|discriminate].
+  pose proof (getc_pos _ _ _ G) as P.
+  exists d. split; [apply reach_bases_supers; [assumption|assumption|lia]|].
+  pose proof (ok_entries _ (Inv_getc _ _ _ I G) _ _ E) as K.
+  destruct e; simpl in K; [| |exact Logic.I].
+  - unfold declares_feat, feats_of. rewrite G. assumption.
+  - unfold declares_op, ops_of. rewrite G. assumption.
+Qed.
+
+(* ---------- visibility on an instance ---------- *)
+
+Definition visible (st : state) (i : Z) (n : name) : Prop :=
+  snd (getattr_m st i n) <> GAbsent.
+
+Definition has_slot (st : state) (i : Z) (n : name) : Prop :=
+  exists x s, geti st i = Some x /\ ns_get n (i_dict x) = Some s.
+
+Lemma visible_cases st i n x :
+  geti st i = Some x -> visible st i n ->
+  (exists e, class_lookup st (i_cls x) n = Some e) \/ has_slot st i n.
+Proof.
+  intros G V. unfold visible, getattr_m in V. rewrite G in V.
+  destruct (class_lookup st (i_cls x) n) as [e|] eqn:L; [left; eexists; reflexivity|].
+  right. destruct (ns_get n (i_dict x)) as [s|] eqn:D.
+  - exists x, s. tauto.
+  - simpl in V. congruence.
+Qed.
+
+(* an instance shows nothing but what its class or a transitive supertype
+   declares -- except for what its own dict still holds *)
+Theorem visible_sound st i n x :
+  Inv st -> flag st = false -> geti st i = Some x -> visible st i n ->
+  (exists d, in_closure st (i_cls x) d /\
+     ((exists f, declares_feat st d n f) \/ (exists s, declares_op st d n s) \/
+      (exists b, ns_get n (ns_of st d) = Some (EBeh b))))
+  \/ has_slot st i n.
+Proof.
+  intros I F G V. destruct (visible_cases _ _ _ _ G V) as [(e & L)|H]; [left|right; assumption].
+  destruct (class_lookup_sound _ _ _ _ I F L) as (d & Hd & K).
+  destruct e as [f|s|b].
+  - exists d. split; [assumption|]. left. exists f. assumption.
+  - exists d. split; [assumption|]. right. left. exists s. assumption.
+  - destruct (class_lookup_found _ _ _ _ L) as (l & d' & M & Hd' & E).
+    unfold mro in M. rewrite F in M. apply (mro_of_closure _ _ _ _ M) in Hd'.
+    assert (P : d' <> 0).
+    { intros Z0. subst. unfold ns_of in E. simpl in E. discriminate. }
+    exists d'. split; [apply reach_bases_supers; assumption|]. right. right. exists b. assumption.
+Qed.
+
+(* an instance that never touched the name sees it only if it is declared *)
+Corollary untouched_sound st i n x :
+  Inv st -> flag st = false -> geti st i = Some x -> ns_get n (i_dict x) = None ->
+  visible st i n ->
+  exists d, in_closure st (i_cls x) d /\
+     ((exists f, declares_feat st d n f) \/ (exists s, declares_op st d n s) \/
+      (exists b, ns_get n (ns_of st d) = Some (EBeh b))).
+Proof.
+  intros I F G D V. destruct (visible_sound _ _ _ _ I F G V) as [H|(x' & s & G' & D')]; [assumption|].
+  rewrite G in G'. inversion G'; subst. congruence.
+Qed.
+
+(* ---------- isinstance ---------- *)
+
+Theorem isinstance_closure st i c x l :
+  Inv st -> flag st = false -> geti st i = Some x -> mro st (i_cls x) = Some l -> c <> 0 ->
+  (isinstance_m st i c = true <-> in_closure st (i_cls x) c).
+Proof.
+  intros I F G M N. unfold isinstance_m. rewrite G, M. rewrite zmem_In.
+  unfold mro in M. rewrite F in M. rewrite (mro_of_closure _ _ _ _ M c).
+  split; intros H; [apply reach_bases_supers|apply reach_supers_bases]; assumption.
+Qed.
+
+(* ---------- operations: the generated method is found below the declaring class ---------- *)
+
+Lemma map_opt_ext {A B} (f f' : A -> option B) l :
+  (forall x, In x l -> f x = f' x) -> map_opt f l = map_opt f' l.
+Proof.
+  induction l as [|a l IH]; intros H; simpl; [reflexivity|].
+  rewrite (H a (or_introl eq_refl)). rewrite IH; [reflexivity|]. intros x Hx. apply H. right. assumption.
+Qed.
+
+Lemma all_bases_ext g g' : (forall x, g x = g' x) -> forall fuel c, all_bases g fuel c = all_bases g' fuel c.
+Proof.
+  intros E. induction fuel as [|f IH]; intros c; simpl; [reflexivity|].
+  rewrite E. f_equal. apply flat_map_ext. assumption.
+Qed.
+
+Lemma mro_of_ext g g' alt : (forall x, g x = g' x) -> forall fuel c, mro_of g alt fuel c = mro_of g' alt fuel c.
+Proof.
+  intros E. induction fuel as [|f IH]; intros c; [reflexivity|].
+  cbn [mro_of]. rewrite <- E. rewrite (map_opt_ext _ (mro_of g' alt f) (g c)) by (intros; apply IH).
+  destruct (map_opt (mro_of g' alt f) (g c)); [|reflexivity].
+  destruct (linearize c l (g c)); [reflexivity|].
+  destruct alt; [|reflexivity]. f_equal. f_equal. f_equal. apply (all_bases_ext _ _ E (S f) c).
+Qed.
+
+(* a state that differs only in the namespace / declarations of class c *)
+Definition same_shape (k k' : cls) : Prop := c_bases k' = c_bases k.
+
+Lemma bases_fn_setc st c k k' x :
+  getc st c = Some k -> same_shape k k' -> bases_fn (setc st c k') x = bases_fn st x.
+Proof.
+  intros G Sh. unfold bases_fn. destruct (Z.eq_dec c x) as [E|N].
+  - subst. rewrite (getc_setc_same _ _ _ _ G), G. assumption.
+  - rewrite (getc_setc_other _ _ _ _ (getc_pos _ _ _ G) N). reflexivity.
+Qed.
+
+Lemma mro_setc st c k k' d :
+  getc st c = Some k -> same_shape k k' -> mro (setc st c k') d = mro st d.
+Proof.
+  intros G Sh. unfold mro.
+  assert (F : fuel_of (setc st c k') = fuel_of st).
+  { unfold fuel_of, nclasses, setc. simpl. rewrite set_at_length. reflexivity. }
+  rewrite F. apply mro_of_ext. intros x. eapply bases_fn_setc; eauto.
+Qed.
+
+Lemma ns_of_setc_other st c k' d : 0 < c -> c <> d -> ns_of (setc st c k') d = ns_of st d.
+Proof. intros P N. unfold ns_of. rewrite getc_setc_other by assumption. reflexivity. Qed.
+
+Lemma ns_of_setc_same st c k k' : getc st c = Some k -> ns_of (setc st c k') c = c_ns k'.
+Proof. intros G. unfold ns_of. rewrite (getc_setc_same _ _ _ _ G). reflexivity. Qed.
+
+Lemma first_some_app {A B} (f : A -> option B) l1 l2 :
+  (forall x, In x l1 -> f x = None) -> first_some f (l1 ++ l2) = first_some f l2.
+Proof.
+  induction l1 as [|a l IH]; intros H; simpl; [reflexivity|].
+  rewrite (H a (or_introl eq_refl)). apply IH. intros x Hx. apply H. right. assumption.
+Qed.
+
+(* adding a well-formed operation to class c: every class whose linearisation
+   reaches c before any other provider of the name finds the generated stub *)
+Theorem add_op_lookup st st' r c o s d l1 l2 :
+  step (AddOp c o) st = (st', r) -> getc st c <> None ->
+  py_def (to_code (o_name o) (o_params o)) = inr s ->
+  mro st d = Some (l1 ++ c :: l2) ->
+  (forall x, In x l1 -> x <> c /\ ns_get (normalized_name (o_name o)) (ns_of st x) = None) ->
+  r = ROk [] /\ mro st' d = Some (l1 ++ c :: l2) /\
+  class_lookup st' d (normalized_name (o_name o)) = Some (EFun s).
+Proof.
+  intros S G PD M L. simpl in S. unfold add_oper in S.
+  destruct (getc st c) as [k|] eqn:Gk; [|congruence]. rewrite PD in S.
+  set (k1 := with_ops (c_ops k ++ [o]) k) in *.
+  assert (G1 : getc (setc st c k1) c = Some k1) by (eapply getc_setc_same; eauto).
+  unfold upd_cls in S. rewrite G1 in S. inversion S; subst. clear S.
+  set (k2 := with_ns (ns_set (h_name (to_code (o_name o) (o_params o))) (EFun s) (c_ns k1)) k1).
+  pose proof (getc_pos _ _ _ Gk) as P.
+  assert (M' : mro (setc (setc st c k1) c k2) d = Some (l1 ++ c :: l2)).
+  { rewrite (mro_setc _ _ k1 k2 _ G1) by reflexivity. rewrite (mro_setc _ _ k k1 _ Gk) by reflexivity. assumption. }
+  split; [reflexivity|]. split; [assumption|].
+  change (class_lookup (setc (setc st c k1) c k2) d (normalized_name (o_name o)) = Some (EFun s)).
+  unfold class_lookup. rewrite M'. rewrite first_some_app.
+  - simpl. rewrite (ns_of_setc_same _ _ _ _ G1). unfold k2. simpl c_ns.
+    rewrite ns_get_set_same. reflexivity.
+  - intros x Hx. destruct (L x Hx) as [N E].
+    rewrite ns_of_setc_other by (try assumption; congruence).
+    rewrite ns_of_setc_other by (try assumption; congruence). assumption.
+Qed.
+
+(* removing the operation: no class that got the method only from c finds it any more *)
+Theorem remove_op_lookup st st' c n d l :
+  Inv st -> step (RemoveOp c n) st = (st', ROk []) ->
+  mro st d = Some l ->
+  (forall x, In x l -> x <> c -> ns_get (normalized_name n) (ns_of st x) = None) ->
+  mro st' d = Some l /\ class_lookup st' d (normalized_name n) = None.
+Proof.
+  intros I S M L. simpl in S.
+  destruct (getc st c) as [k|] eqn:G; [|discriminate].
+  destruct (remove_oper n (c_ops k)) as [os|] eqn:R; [|discriminate].
+  simpl in S. destruct (ns_del (normalized_name n) (c_ns k)) as [ns'|] eqn:D; [|discriminate].
+  inversion S; subst. clear S.
+  pose proof (getc_pos _ _ _ G) as P.
+  destruct (ns_del_spec _ _ _ D (ok_keys _ (Inv_getc _ _ _ I G))) as (_ & D2 & _ & _).
+  assert (M' : mro (setc st c (with_ns ns' (with_ops os k))) d = Some l).
+  { rewrite (mro_setc _ _ k _ _ G) by reflexivity. assumption. }
+  split; [assumption|]. unfold class_lookup. rewrite M'. apply first_some_None.
+  intros x Hx. destruct (Z.eq_dec x c) as [E|N].
+  - subst. rewrite (ns_of_setc_same _ _ _ _ G). assumption.
+  - rewrite ns_of_setc_other by (try assumption; congruence). apply L; assumption.
+Qed.
+
+(* from the class to the instance *)
+Lemma getattr_finds_fun st i n x s :
+  geti st i = Some x -> ns_get n (i_dict x) = None ->
+  class_lookup st (i_cls x) n = Some (EFun s) -> getattr_m st i n = (st, GFun s).
+Proof. intros G D L. unfold getattr_m. rewrite G, L, D. reflexivity. Qed.
+
+Lemma getattr_finds_nothing st i n x :
+  geti st i = Some x -> ns_get n (i_dict x) = None ->
+  class_lookup st (i_cls x) n = None -> getattr_m st i n = (st, GAbsent).
+Proof. intros G D L. unfold getattr_m. rewrite G, L, D. reflexivity. Qed.
+
+(* the generated stub: its signature is the declared one, and calling it with
+   an acceptable number of arguments raises NotImplementedError *)
+Theorem stub_behaviour st i n s k :
+  getattr_m st i n = (st, GFun s) ->
+  step (Sig i n) st = (st, ROk (0 :: enc_view (bound_signature s))) /\
+  (accepts s (Z.to_nat k) = true -> step (Call i n k) st = (st, RErr XNotImpl)) /\
+  (accepts s (Z.to_nat k) = false -> step (Call i n k) st = (st, RErr XType)).
+Proof.
+  intros H. simpl. rewrite H. split; [reflexivity|]. split; intros ->; reflexivity.
+Qed.
+
+Theorem absent_behaviour st i n k :
+  getattr_m st i n = (st, GAbsent) ->
+  step (Sig i n) st = (st, RErr XAttr) /\ step (Call i n k) st = (st, RErr XAttr).
+Proof. intros H. simpl. rewrite H. split; reflexivity. Qed.
+
+(* how many positional arguments the stub of a declaration takes *)
+Lemma accepts_declared n ps s k :
+  no_self ps -> py_def (to_code n ps) = inr s ->
+  (accepts s k = true <->
+   (length (filter p_required ps) <= k <= length ps)%nat).
+Proof.
+  intros NS H. pose proof H as H0. apply py_def_inv in H. destruct H as [W E].
+  unfold to_code in *. simpl h_params in *. rewrite (sig_of_no_self _ NS) in *. subst s.
+  unfold accepts. rewrite nreq_spec. cbn [a_args]. simpl length. rewrite map_length, map_length.
+  simpl nreqs.
+  assert (N : nreqs (map param_to_code ps) = length (filter p_required ps)).
+  { clear. induction ps as [|p r IH]; simpl; [reflexivity|].
+    unfold param_to_code at 1. destruct (p_required p); simpl; rewrite IH; reflexivity. }
+  rewrite N. rewrite andb_true_iff, !Nat.leb_le. lia.
+Qed.
+
+(* ---------- the other half: what is declared is in the namespace ---------- *)
+
+Definition op_key (o : oper) : name := normalized_name (o_name o).
+
+Definition declared_names (k : cls) : list name :=
+  map f_name (c_feats k) ++ map op_key (c_ops k).
+
+Record cls_full (k : cls) : Prop := {
+  full_uniq : NoDup (declared_names k);
+  full_feats : forall f, In f (c_feats k) -> ns_get (f_name f) (c_ns k) = Some (EFeat f);
+  full_ops : forall o s, In o (c_ops k) -> py_def (to_code (o_name o) (o_params o)) = inr s ->
+               ns_get (op_key o) (c_ns k) = Some (EFun s) \/ exists b, ns_get (op_key o) (c_ns k) = Some (EBeh b)
+}.
+
+Definition Full (st : state) : Prop := Forall cls_full (classes st).
+
+(* well-formed edits: one declaration per name and class (Ecore), behaviours
+   are not attached under the name of a feature of the class *)
+Definition wf_op (st : state) (o : op) : Prop :=
+  match o with
+  | AddFeat c f => forall k, getc st c = Some k -> ~ In (f_name f) (declared_names k)
+  | AddOp c o => forall k, getc st c = Some k -> ~ In (op_key o) (declared_names k)
+  | Attach c n _ => forall k, getc st c = Some k -> ~ In n (map f_name (c_feats k))
+  | _ => True
+  end.
+
+Lemma Full_getc st c k : Full st -> getc st c = Some k -> cls_full k.
+Proof. intros H G. apply getc_In in G. unfold Full in H. rewrite Forall_forall in H. auto. Qed.
+
+Lemma Full_setc st c k : Full st -> cls_full k -> Full (setc st c k).
+Proof. intros H K. unfold Full, setc. simpl. apply Forall_set_at; assumption. Qed.
+
+Lemma cls_full_shape k k' :
+  c_feats k' = c_feats k -> c_ops k' = c_ops k -> c_ns k' = c_ns k -> cls_full k -> cls_full k'.
+Proof.
+  intros E1 E2 E3 [F1 F2 F3]. constructor.
+  - unfold declared_names. rewrite E1, E2. exact F1.
+  - rewrite E1, E3. exact F2.
+  - rewrite E2, E3. exact F3.
+Qed.
+
+Lemma Full_set_bases st c bs : Full st -> Full (set_bases st c bs).
+Proof.
+  intros H. unfold set_bases. destruct (getc st c) as [k|] eqn:G; [|assumption].
+  apply Full_setc; [assumption|]. eapply cls_full_shape; [| | |eapply Full_getc; eauto]; reflexivity.
+Qed.
+
+Lemma Full_set_supers st c ss : Full st -> Full (set_supers st c ss).
+Proof.
+  intros H. unfold set_supers. destruct (getc st c) as [k|] eqn:G; [|assumption].
+  apply Full_setc; [assumption|]. eapply cls_full_shape; [| | |eapply Full_getc; eauto]; reflexivity.
+Qed.
+
+Lemma Full_update_supertypes st c st' r : Full st -> update_supertypes st c = (st', r) -> Full st'.
+Proof.
+  intros H U. unfold update_supertypes in U.
+  repeat match type of U with
+         | context [assign ?a ?b ?d] => let A := fresh "A" in destruct (assign a b d) eqn:A;
+             [apply assign_eq in A; subst|]
+         end; inversion U; subst; try apply Full_set_bases; exact H.
+Qed.
+
+Lemma Full_classes_eq st st' : classes st' = classes st -> Full st -> Full st'.
+Proof. unfold Full. intros ->. tauto. Qed.
+
+Lemma remove_feat_split n fs fs' :
+  remove_feat n fs = Some fs' -> exists l1 f l2, fs = l1 ++ f :: l2 /\ fs' = l1 ++ l2 /\ f_name f = n.
+Proof.
+  revert fs'. induction fs as [|f r IH]; simpl; intros fs' H; [discriminate|].
+  destruct (name_eqb (f_name f) n) eqn:E.
+  - inversion H; subst. exists [], f, fs'. apply name_eqb_eq in E. tauto.
+  - destruct (remove_feat n r) as [r'|]; [|discriminate]. inversion H; subst.
+    destruct (IH _ eq_refl) as (l1 & g & l2 & E1 & E2 & E3). subst.
+    exists (f :: l1), g, l2. tauto.
+Qed.
+
+Lemma remove_oper_split n os os' :
+  remove_oper n os = Some os' -> exists l1 o l2, os = l1 ++ o :: l2 /\ os' = l1 ++ l2 /\ o_name o = n.
+Proof.
+  revert os'. induction os as [|f r IH]; simpl; intros os' H; [discriminate|].
+  destruct (name_eqb (o_name f) n) eqn:E.
+  - inversion H; subst. exists [], f, os'. apply name_eqb_eq in E. tauto.
+  - destruct (remove_oper n r) as [r'|]; [|discriminate]. inversion H; subst.
+    destruct (IH _ eq_refl) as (l1 & g & l2 & E1 & E2 & E3). subst.
+    exists (f :: l1), g, l2. tauto.
+Qed.
+
+Lemma del_all_others names : forall (ns ns' : list (name * entry)) ok,
+  del_all ns names = (ns', ok) -> NoDup (map fst ns) ->
+  forall m, ~ In m names -> ns_get m ns' = ns_get m ns.
+Proof.
+  induction names as [|n r IH]; simpl; intros ns ns' ok H ND m Hm.
+  - inversion H; subst. reflexivity.
+  - destruct (ns_del n ns) as [ns1|] eqn:D.
+    + destruct (ns_del_spec _ _ _ D ND) as (D1 & D2 & D3 & D4).
+      rewrite (IH _ _ _ H D1 m) by tauto. apply D3. intros E. apply Hm. left. congruence.
+    + inversion H; subst. reflexivity.
+Qed.
+
+Lemma NoDup_app_l {A} (l1 l2 : list A) : NoDup (l1 ++ l2) -> NoDup l1.
+Proof.
+  induction l1 as [|a l IH]; simpl; intros H; [constructor|].
+  inversion H as [|? ? Hn Hr]; subst. constructor; [|auto].
+  intros X. apply Hn. apply in_or_app. left. assumption.
+Qed.
+
+Lemma NoDup_app_r {A} (l1 l2 : list A) : NoDup (l1 ++ l2) -> NoDup l2.
+Proof.
+  induction l1 as [|a l IH]; simpl; intros H; [assumption|].
+  inversion H as [|? ? Hn Hr]; subst. auto.
+Qed.
+
+Lemma NoDup_app_disjoint {A} (l1 l2 : list A) x : NoDup (l1 ++ l2) -> In x l1 -> In x l2 -> False.
+Proof.
+  induction l1 as [|a l IH]; simpl; intros H H1 H2; [destruct H1|].
+  inversion H as [|? ? Hn Hr]; subst.
+  destruct H1 as [E|H1]; [subst; apply Hn; apply in_or_app; right; assumption|eauto].
+Qed.
+
+Theorem step_preserves_Full o st st' r :
+  Inv st -> Full st -> wf_op st o -> step o st = (st', r) -> side_condition o r -> Full st'.
+Proof.
+  intros I Fu WF St SC. destruct o; simpl in St.
+  - (* NewClass *)
+    unfold new_class in St.
+    match type of St with context [update_supertypes ?s1 ?c1] =>
+      destruct (update_supertypes s1 c1) as [st2 e] eqn:U; assert (F1 : Full s1) end.
+    { unfold Full. simpl. apply Forall_app. split; [exact Fu|]. constructor; [|constructor].
+      constructor; simpl; [constructor|intros f []|intros o s []]. }
+    pose proof (Full_update_supertypes _ _ _ _ F1 U). destruct e; inversion St; subst; assumption.
+  - (* AddSuper *)
+    destruct (getc st c) as [k|] eqn:G; [|inversion St; subst; assumption].
+    match type of St with context [update_supertypes ?s1 ?c1] =>
+      destruct (update_supertypes s1 c1) as [st2 e] eqn:U; assert (F1 : Full s1) by (apply Full_set_supers; assumption) end.
+    pose proof (Full_update_supertypes _ _ _ _ F1 U). destruct e; inversion St; subst; assumption.
+  - (* RemoveSuper *)
+    destruct (getc st c) as [k|] eqn:G; [|inversion St; subst; assumption].
+    destruct (remove_first Z.eqb s (c_supers k)) as [ss|]; [|inversion St; subst; assumption].
+    match type of St with context [update_supertypes ?s1 ?c1] =>
+      destruct (update_supertypes s1 c1) as [st2 e] eqn:U; assert (F1 : Full s1) by (apply Full_set_supers; assumption) end.
+    pose proof (Full_update_supertypes _ _ _ _ F1 U). destruct e; inversion St; subst; assumption.
+  - (* AddFeat *)
+    destruct (getc st c) as [k|] eqn:G; [|inversion St; subst; assumption].
+    inversion St; subst. apply Full_setc; [assumption|].
+    specialize (WF k G). destruct (Full_getc _ _ _ Fu G) as [F1 F2 F3].
+    assert (Nf : forall g, In g (c_feats k) -> f_name f <> f_name g).
+    { intros g Hg E. apply WF. unfold declared_names. apply in_or_app. left. rewrite E. apply in_map. assumption. }
+    assert (No : forall o, In o (c_ops k) -> f_name f <> op_key o).
+    { intros o Ho E. apply WF. unfold declared_names. apply in_or_app. right. rewrite E. apply in_map. assumption. }
+    constructor; simpl.
+    + unfold declared_names in *. simpl. rewrite map_app. simpl. rewrite <- app_assoc. simpl.
+      eapply Permutation_NoDup; [apply Permutation_middle|]. constructor; assumption.
+    + intros g Hg. apply in_app_or in Hg. destruct Hg as [Hg|[Hg|[]]].
+      * rewrite ns_get_set_other by (apply Nf; assumption). apply F2. assumption.
+      * subst. apply ns_get_set_same.
+    + intros o s Ho PD. rewrite ns_get_set_other by (apply No; assumption). apply F3; assumption.
+  - (* RemoveFeat *)
+    destruct (getc st c) as [k|] eqn:G; [|inversion St; subst; assumption].
+    destruct (remove_feat n (c_feats k)) as [fs|] eqn:R; [|inversion St; subst; assumption].
+    destruct (Full_getc _ _ _ Fu G) as [F1 F2 F3].
+    destruct (remove_feat_split _ _ _ R) as (l1 & f0 & l2 & E1 & E2 & E3).
+    assert (F0 : ns_get n (c_ns k) = Some (EFeat f0)).
+    { rewrite <- E3. apply F2. rewrite E1. apply in_or_app. right. left. reflexivity. }
+    simpl in St. destruct (ns_del n (c_ns k)) as [ns'|] eqn:D.
+    2:{ apply ns_del_None in D. congruence. }
+    inversion St; subst. apply Full_setc; [assumption|].
+    destruct (ns_del_spec _ _ _ D (ok_keys _ (Inv_getc _ _ _ I G))) as (D1 & D2 & D3 & D4).
+    unfold declared_names in F1. rewrite E1 in F1. rewrite map_app in F1. simpl in F1. rewrite <- app_assoc in F1. simpl in F1.
+    pose proof (NoDup_remove_1 _ _ _ F1) as U1. pose proof (NoDup_remove_2 _ _ _ F1) as U2.
+    constructor; simpl.
+    + unfold declared_names. simpl. rewrite map_app, <- app_assoc. assumption.
+    + intros g Hg. rewrite D3.
+      * apply F2. rewrite E1. apply in_app_or in Hg. apply in_or_app. destruct Hg; [left|right; right]; assumption.
+      * intros E. apply U2. rewrite <- E. apply in_app_or in Hg. apply in_or_app.
+        destruct Hg as [Hg|Hg]; [left; apply in_map; assumption|right; apply in_or_app; left; apply in_map; assumption].
+    + intros o s Ho PD. rewrite D3; [apply F3; assumption|].
+      intros E. apply U2. rewrite <- E. apply in_or_app. right. apply in_or_app. right. apply in_map. assumption.
+  - (* ClearFeats *)
+    destruct (getc st c) as [k|] eqn:G; [|inversion St; subst; assumption].
+    destruct (Full_getc _ _ _ Fu G) as [F1 F2 F3]. simpl in St.
+    destruct (del_all (c_ns k) (map f_name (c_feats k))) as [ns' ok] eqn:D.
+    inversion St; subst. apply Full_setc; [assumption|].
+    pose proof (del_all_others _ _ _ _ D (ok_keys _ (Inv_getc _ _ _ I G))) as O.
+    constructor; simpl.
+    + unfold declared_names in *. simpl. eapply NoDup_app_r; eauto.
+    + intros f [].
+    + intros o s Ho PD. rewrite O; [apply F3; assumption|].
+      intros Hin. eapply (NoDup_app_disjoint _ _ (op_key o) F1); [assumption|apply in_map; assumption].
+  - (* AddOp *)
+    unfold add_oper in St. destruct (getc st c) as [k|] eqn:G; [|inversion St; subst; assumption].
+    specialize (WF k G). destruct (Full_getc _ _ _ Fu G) as [F1 F2 F3].
+    assert (Nf : forall g, In g (c_feats k) -> op_key o <> f_name g).
+    { intros g Hg E. apply WF. unfold declared_names. apply in_or_app. left. rewrite E. apply in_map. assumption. }
+    assert (No : forall o', In o' (c_ops k) -> op_key o <> op_key o').
+    { intros o' Ho E. apply WF. unfold declared_names. apply in_or_app. right. rewrite E. apply in_map. assumption. }
+    set (k1 := with_ops (c_ops k ++ [o]) k) in *.
+    assert (U1 : NoDup (declared_names k1)).
+    { unfold declared_names, k1. simpl. rewrite map_app. simpl. rewrite app_assoc.
+      eapply Permutation_NoDup; [apply Permutation_cons_append|]. constructor; assumption. }
+    assert (G1 : getc (setc st c k1) c = Some k1) by (eapply getc_setc_same; eauto).
+    destruct (py_def (to_code (o_name o) (o_params o))) as [[]|s] eqn:PD.
+    + inversion St; subst. apply Full_setc; [assumption|]. constructor; simpl; [assumption|assumption|].
+      intros o' s' Ho PD'. apply in_app_or in Ho. destruct Ho as [Ho|[Ho|[]]]; [apply F3; assumption|].
+      subst. congruence.
+    + inversion St; subst. unfold upd_cls. rewrite G1. rewrite setc_twice. apply Full_setc; [assumption|].
+      constructor; simpl; [assumption| |].
+      * intros g Hg. rewrite ns_get_set_other by (apply Nf; assumption). apply F2. assumption.
+      * intros o' s' Ho PD'. apply in_app_or in Ho. destruct Ho as [Ho|[Ho|[]]].
+        -- rewrite ns_get_set_other by (apply No; assumption). apply F3; assumption.
+        -- subst. left. rewrite PD in PD'. inversion PD'; subst. apply ns_get_set_same.
+  - (* RemoveOp *)
+    destruct (getc st c) as [k|] eqn:G; [|inversion St; subst; assumption].
+    destruct (remove_oper n (c_ops k)) as [os|] eqn:R; [|inversion St; subst; assumption].
+    destruct (Full_getc _ _ _ Fu G) as [F1 F2 F3].
+    destruct (remove_oper_split _ _ _ R) as (l1 & o0 & l2 & E1 & E2 & E3).
+    unfold declared_names in F1. rewrite E1 in F1. rewrite map_app in F1. simpl in F1. rewrite app_assoc in F1.
+    pose proof (NoDup_remove_1 _ _ _ F1) as U1. pose proof (NoDup_remove_2 _ _ _ F1) as U2.
+    assert (K0 : op_key o0 = normalized_name n) by (unfold op_key; rewrite E3; reflexivity).
+    assert (U : NoDup (declared_names (with_ops os k))).
+    { unfold declared_names. simpl. rewrite E2, map_app, app_assoc. assumption. }
+    assert (Nf : forall g, In g (c_feats k) -> f_name g <> normalized_name n).
+    { intros g Hg E. apply U2. rewrite K0, <- E. apply in_or_app. left. apply in_or_app. left. apply in_map. assumption. }
+    assert (No : forall o, In o os -> op_key o <> normalized_name n).
+    { intros o Ho E. apply U2. rewrite K0, <- E. rewrite E2 in Ho. apply in_app_or in Ho.
+      destruct Ho as [Ho|Ho]; [apply in_or_app; left; apply in_or_app; right; apply in_map; assumption|
+                               apply in_or_app; right; apply in_map; assumption]. }
+    assert (Sub : forall o, In o os -> In o (c_ops k)).
+    { intros o Ho. rewrite E1. rewrite E2 in Ho. apply in_app_or in Ho. apply in_or_app. destruct Ho; [left|right; right]; assumption. }
+    simpl in St. destruct (ns_del (normalized_name n) (c_ns k)) as [ns'|] eqn:D; inversion St; subst;
+      (apply Full_setc; [assumption|]).
+    + destruct (ns_del_spec _ _ _ D (ok_keys _ (Inv_getc _ _ _ I G))) as (D1 & D2 & D3 & D4).
+      constructor; simpl; [exact U| |].
+      * intros g Hg. rewrite D3 by (apply Nf; assumption). apply F2. assumption.
+      * intros o s Ho PD. rewrite D3 by (apply No; assumption). apply F3; [apply Sub; assumption|assumption].
+    + constructor; simpl; [exact U|assumption|]. intros o s Ho PD. apply F3; [apply Sub; assumption|assumption].
+  - (* ClearOps *)
+    destruct (getc st c) as [k|] eqn:G; [|inversion St; subst; assumption].
+    destruct (Full_getc _ _ _ Fu G) as [F1 F2 F3]. simpl in St.
+    destruct (del_all (c_ns k) (map (fun o => normalized_name (o_name o)) (c_ops k))) as [ns' ok] eqn:D.
+    inversion St; subst. apply Full_setc; [assumption|].
+    pose proof (del_all_others _ _ _ _ D (ok_keys _ (Inv_getc _ _ _ I G))) as O.
+    constructor; simpl.
+    + unfold declared_names in *. simpl. rewrite app_nil_r. eapply NoDup_app_l; eauto.
+    + intros f Hf. rewrite O; [apply F2; assumption|].
+      intros Hin. eapply (NoDup_app_disjoint _ _ (f_name f) F1); [apply in_map; assumption|exact Hin].
+    + intros o s [].
+  - (* Attach *)
+    destruct (getc st c) as [k|] eqn:G; [|inversion St; subst; assumption].
+    inversion St; subst. apply Full_setc; [assumption|].
+    specialize (WF k G). destruct (Full_getc _ _ _ Fu G) as [F1 F2 F3].
+    constructor; simpl; [assumption| |].
+    + intros f Hf. rewrite ns_get_set_other; [apply F2; assumption|].
+      intros E. apply WF. rewrite E. apply in_map. assumption.
+    + intros o s Ho PD. destruct (list_eq_dec Z.eq_dec n (op_key o)) as [E|N].
+      * right. exists b. rewrite E. apply ns_get_set_same.
+      * rewrite ns_get_set_other by assumption. apply F3; assumption.
+  - (* NewInst *)
+    destruct (getc st c); inversion St; subst; assumption.
+  - (* Get *)
+    pose proof (classes_getattr st i n) as C. destruct (getattr_m st i n) as [st1 g]. simpl in C.
+    apply (Full_classes_eq st); [|assumption]. destruct g; inversion St; subst; assumption.
+  - (* SetA *)
+    pose proof (classes_setattr st i n v) as C. rewrite St in C. apply (Full_classes_eq st); assumption.
+  - (* Append *)
+    pose proof (classes_append st i n v) as C. rewrite St in C. apply (Full_classes_eq st); assumption.
+  - (* Call *)
+    pose proof (classes_getattr st i n) as C. destruct (getattr_m st i n) as [st1 g]. simpl in C.
+    apply (Full_classes_eq st); [|assumption]. destruct g; inversion St; subst; assumption.
+  - (* Sig *)
+    pose proof (classes_getattr st i n) as C. destruct (getattr_m st i n) as [st1 g]. simpl in C.
+    apply (Full_classes_eq st); [|assumption]. destruct g; inversion St; subst; assumption.
+Qed.
+
+Lemma Full_empty fl : Full (empty_state fl).
+Proof. constructor. Qed.
+
+Fixpoint wf_history (ops : list op) (st : state) : Prop :=
+  match ops with
+  | [] => True
+  | o :: r => wf_op st o /\ side_condition o (snd (step o st)) /\ wf_history r (next st o)
+  end.
+
+Lemma wf_history_sides ops : forall st, wf_history ops st -> sides ops st.
+Proof. induction ops as [|o r IH]; simpl; intros st H; [exact Logic.I|]. destruct H as (_ & H1 & H2). auto. Qed.
+
+Theorem history_Inv_Full ops : forall st,
+  Inv st -> Full st -> wf_history ops st ->
+  Inv (fold_left next ops st) /\ Full (fold_left next ops st).
+Proof.
+  induction ops as [|o r IH]; intros st I Fu W; simpl; [tauto|].
+  destruct W as (W1 & W2 & W3). unfold next in *.
+  destruct (step o st) as [st' out] eqn:E. simpl in *.
+  apply IH; [eapply step_preserves_Inv; eauto|eapply step_preserves_Full; eauto|assumption].
+Qed.
+
+(* ---------- what is declared is visible ---------- *)
+
+Lemma first_some_exists {A B} (f : A -> option B) l x y :
+  In x l -> f x = Some y -> exists y', first_some f l = Some y'.
+Proof.
+  induction l as [|a l IH]; simpl; intros H E; [destruct H|].
+  destruct (f a) as [b|] eqn:Ea; [eexists; reflexivity|].
+  destruct H as [H|H]; [subst; congruence|eauto].
+Qed.
+
+Lemma first_some_unique {B} (f : Z -> option B) l x y :
+  In x l -> f x = Some y -> (forall z, In z l -> z <> x -> f z = None) -> first_some f l = Some y.
+Proof.
+  induction l as [|a l IH]; simpl; intros H E U; [destruct H|].
+  destruct (Z.eq_dec a x) as [X|X].
+  - subst. rewrite E. reflexivity.
+  - rewrite (U a (or_introl eq_refl) X). destruct H as [H|H]; [congruence|].
+    apply IH; [assumption|assumption|]. intros z Hz. apply U. right. assumption.
+Qed.
+
+Lemma declares_feat_pos st d n f : declares_feat st d n f -> d <> 0.
+Proof. intros [H _] E. subst. unfold feats_of in H. simpl in H. destruct H. Qed.
+
+Lemma declares_op_pos st d n s : declares_op st d n s -> d <> 0.
+Proof. intros (o & H & _) E. subst. unfold ops_of in H. simpl in H. destruct H. Qed.
+
+Lemma in_closure_in_mro st c d l :
+  Inv st -> flag st = false -> mro st c = Some l -> in_closure st c d -> d <> 0 -> In d l.
+Proof.
+  intros I F M R N. unfold mro in M. rewrite F in M.
+  apply (mro_of_closure _ _ _ _ M). apply reach_supers_bases; assumption.
+Qed.
+
+(* a feature or (well-formed) operation declared by the class or by a
+   transitive supertype is found by the class lookup *)
+Theorem declared_is_found st c l d n :
+  Inv st -> Full st -> flag st = false -> mro st c = Some l -> in_closure st c d ->
+  ((exists f, declares_feat st d n f) \/ (exists s, declares_op st d n s)) ->
+  exists e, class_lookup st c n = Some e.
+Proof.
+  intros I Fu F M R D.
+  assert (N : d <> 0) by (destruct D as [(f & D)|(s & D)]; [eapply declares_feat_pos|eapply declares_op_pos]; eauto).
+  pose proof (in_closure_in_mro _ _ _ _ I F M R N) as Hd.
+  unfold class_lookup. rewrite M.
+  destruct D as [(f & Hf & En)|(s & o & Ho & En & PD)].
+  - unfold feats_of in Hf. destruct (getc st d) as [k|] eqn:G; [|destruct Hf].
+    apply (first_some_exists _ _ d (EFeat f)); [assumption|].
+    unfold ns_of. rewrite G. rewrite <- En. apply (full_feats _ (Full_getc _ _ _ Fu G)). assumption.
+  - unfold ops_of in Ho. destruct (getc st d) as [k|] eqn:G; [|destruct Ho].
+    destruct (full_ops _ (Full_getc _ _ _ Fu G) o s Ho PD) as [E|(b & E)]; unfold op_key in E; rewrite En in E.
+    + apply (first_some_exists _ _ d (EFun s)); [assumption|]. unfold ns_of. rewrite G. assumption.
+    + apply (first_some_exists _ _ d (EBeh b)); [assumption|]. unfold ns_of. rewrite G. assumption.
+Qed.
+
+(* with their defaults and multiplicity: when one class of the linearisation
+   provides the name, the lookup finds that very feature, and an instance
+   that holds no slot of that name reads the declared default, single or many *)
+Theorem declared_feature_lookup st c l d n f :
+  Inv st -> Full st -> flag st = false -> mro st c = Some l -> in_closure st c d ->
+  declares_feat st d n f ->
+  (forall z, In z l -> z <> d -> ns_get n (ns_of st z) = None) ->
+  class_lookup st c n = Some (EFeat f).
+Proof.
+  intros I Fu F M R D U.
+  pose proof (in_closure_in_mro _ _ _ _ I F M R (declares_feat_pos _ _ _ _ D)) as Hd.
+  unfold class_lookup. rewrite M. destruct D as [Hf En].
+  unfold feats_of in Hf. destruct (getc st d) as [k|] eqn:G; [|destruct Hf].
+  apply (first_some_unique _ _ d); [assumption| |assumption].
+  unfold ns_of. rewrite G. rewrite <- En. apply (full_feats _ (Full_getc _ _ _ Fu G)). assumption.
+Qed.
+
+Lemma getattr_default st i n x f :
+  geti st i = Some x -> ns_get n (i_dict x) = None ->
+  class_lookup st (i_cls x) n = Some (EFeat f) ->
+  snd (getattr_m st i n) = if f_many f then GColl [] else GSingle (f_default f).
+Proof.
+  intros G D L. unfold getattr_m. rewrite G, L, D. unfold default_slot. destruct (f_many f); reflexivity.
+Qed.
+
+Theorem declared_is_visible st i x l d n :
+  Inv st -> Full st -> flag st = false -> geti st i = Some x -> mro st (i_cls x) = Some l ->
+  in_closure st (i_cls x) d ->
+  ((exists f, declares_feat st d n f) \/ (exists s, declares_op st d n s)) ->
+  visible st i n.
+Proof.
+  intros I Fu F G M R D. destruct (declared_is_found _ _ _ _ _ I Fu F M R D) as (e & L).
+  unfold visible, getattr_m. rewrite G, L.
+  destruct e as [f|s|b]; destruct (ns_get n (i_dict x)) as [[? ?|? ?|?]|]; simpl; try discriminate.
+  unfold default_slot. destruct (f_many f); discriminate.
+Qed.
+
+(* exactly: for an instance that holds no slot of the name *)
+Theorem visible_iff_declared st i x l n :
+  Inv st -> Full st -> flag st = false -> geti st i = Some x -> mro st (i_cls x) = Some l ->
+  ns_get n (i_dict x) = None ->
+  (forall d b, ns_get n (ns_of st d) = Some (EBeh b) -> exists s, declares_op st d n s) ->
+  (visible st i n <->
+   exists d, in_closure st (i_cls x) d /\
+     ((exists f, declares_feat st d n f) \/ (exists s, declares_op st d n s))).
+Proof.
+  intros I Fu F G M D NB. split.
+  - intros V. destruct (untouched_sound _ _ _ _ I F G D V) as (d & R & [H|[H|(b & H)]]).
+    + exists d. tauto.
+    + exists d. tauto.
+    + exists d. split; [assumption|]. right. eapply NB; eauto.
+  - intros (d & R & H). eapply declared_is_visible; eauto.
 Qed.
